@@ -178,13 +178,31 @@ func rulePREC1(c *Ctx) {
 		if tn != "BinaryExpr" {
 			return false
 		}
-		f := map[string]string{}
+		f := map[string]ast.Expr{}
 		for _, e := range cl.Elts {
 			if kv, ok := e.(*ast.KeyValueExpr); ok {
-				f[w.Src(kv.Key)] = w.Src(kv.Value)
+				f[w.Src(kv.Key)] = kv.Value
 			}
 		}
-		return f["LHS"] == "x" && f["RHS"] == "y" && f["Token"] != ""
+		// LHS: the variable that holds the operand parsed by parseUnaryExpr (the
+		// accumulated left side); RHS: the variable holding the recursive result
+		definedBy := func(callee string) types.Object {
+			var o types.Object
+			ast.Inspect(pb.Body, func(m ast.Node) bool {
+				as, ok := m.(*ast.AssignStmt)
+				if !ok || len(as.Lhs) != 1 || len(as.Rhs) != 1 || as.Tok != token.DEFINE {
+					return true
+				}
+				if call, ok := as.Rhs[0].(*ast.CallExpr); ok && isMethodOf(Callee(p, call), p.Types, "Parser", callee) {
+					if id, ok := as.Lhs[0].(*ast.Ident); ok {
+						o = p.TypesInfo.Defs[id]
+					}
+				}
+				return true
+			})
+			return o
+		}
+		return f["LHS"] != nil && f["RHS"] != nil && f["Token"] != nil && isObj(p, f["LHS"], definedBy("parseUnaryExpr")) && isObj(p, f["RHS"], definedBy("parseBinaryExpr"))
 	})
 	if !built {
 		probs = append(probs, "BinaryExpr is not built as {LHS: accumulated left, RHS: new right operand}")
@@ -593,7 +611,15 @@ func ruleLIT1(c *Ctx) {
 				var walk func(s ast.Stmt)
 				walk = func(s ast.Stmt) {
 					if x, ok := s.(*ast.IfStmt); ok {
-						if strings.Contains(w.Src(x.Cond), "err != nil") && containsNode(x.Body, func(m ast.Node) bool {
+						isErrNotNil := containsNode(x.Cond, func(m ast.Node) bool {
+							b, ok := m.(*ast.BinaryExpr)
+							if !ok || b.Op != token.NEQ || !isNilIdent(b.Y) {
+								return false
+							}
+							t := p.TypesInfo.Types[b.X].Type
+							return t != nil && types.TypeString(t, nil) == "error"
+						})
+						if isErrNotNil && containsNode(x.Body, func(m ast.Node) bool {
 							cl, ok := m.(*ast.CallExpr)
 							return ok && isMethodOf(Callee(p, cl), p.Types, "Parser", "error")
 						}) {
@@ -833,13 +859,53 @@ func ruleSEMI1(c *Ctx) {
 		return
 	}
 	// (a) identifier/keyword arm
+	// the per-token flag: the local variable that Scan stores into the field
+	// insertSemi (whatever it is called)
+	var flagObj types.Object
+	ast.Inspect(sc.Body, func(n ast.Node) bool {
+		as, ok := n.(*ast.AssignStmt)
+		if !ok || len(as.Lhs) != 1 || len(as.Rhs) != 1 {
+			return true
+		}
+		if f, _ := FieldSel(p, as.Lhs[0]); f != nil && f.Name() == "insertSemi" {
+			if id, ok := ast.Unparen(as.Rhs[0]).(*ast.Ident); ok {
+				if v, ok := p.TypesInfo.Uses[id].(*types.Var); ok && !v.IsField() {
+					flagObj = v
+				}
+			}
+		}
+		return true
+	})
+	isFlag := func(e ast.Expr) bool { return isObj(p, e, flagObj) }
+	// a condition like `tok == token.Inc`, described without the variable's name
+	condStr := func(e ast.Expr) string {
+		if b, ok := ast.Unparen(e).(*ast.BinaryExpr); ok {
+			if _, isId := ast.Unparen(b.X).(*ast.Ident); isId {
+				return "tok " + b.Op.String() + " " + w.Src(b.Y)
+			}
+		}
+		return w.Src(e)
+	}
+	isDigitTest := func(e ast.Expr) bool {
+		lo, hi := false, false
+		ast.Inspect(e, func(m ast.Node) bool {
+			if k, ok := m.(ast.Expr); ok {
+				if v, ok := ConstInt(p, k); ok {
+					lo = lo || v == '0'
+					hi = hi || v == '9'
+				}
+			}
+			return true
+		})
+		return lo && hi
+	}
 	kw := map[string]bool{}
 	chars := map[string]string{}
 	numbers := false
 	setsTrue := func(n ast.Node) bool {
 		return containsNode(n, func(m ast.Node) bool {
 			as, ok := m.(*ast.AssignStmt)
-			return ok && len(as.Lhs) == 1 && w.Src(as.Lhs[0]) == "insertSemi" && w.Src(as.Rhs[0]) == "true"
+			return ok && len(as.Lhs) == 1 && isFlag(as.Lhs[0]) && w.Src(as.Rhs[0]) == "true"
 		})
 	}
 	ast.Inspect(sc.Body, func(n ast.Node) bool {
@@ -851,7 +917,7 @@ func ruleSEMI1(c *Ctx) {
 			if co := ConstObj(p, e); co != nil && co.Pkg() == w.Token.Types {
 				// direct assignment in this clause's own statements
 				for _, s := range cc.Body {
-					if as, ok := s.(*ast.AssignStmt); ok && w.Src(as.Lhs[0]) == "insertSemi" && w.Src(as.Rhs[0]) == "true" {
+					if as, ok := s.(*ast.AssignStmt); ok && isFlag(as.Lhs[0]) && w.Src(as.Rhs[0]) == "true" {
 						kw[co.Name()] = true
 					}
 				}
@@ -866,21 +932,21 @@ func ruleSEMI1(c *Ctx) {
 				for _, s := range cc.Body {
 					switch x := s.(type) {
 					case *ast.AssignStmt:
-						if w.Src(x.Lhs[0]) == "insertSemi" && w.Src(x.Rhs[0]) == "true" {
+						if isFlag(x.Lhs[0]) && w.Src(x.Rhs[0]) == "true" {
 							chars[string(rune(r))] = "always"
 						}
 					case *ast.IfStmt:
 						if setsTrue(x.Body) {
-							chars[string(rune(r))] = w.Src(x.Cond)
+							chars[string(rune(r))] = condStr(x.Cond)
 						}
 					}
 				}
 				continue
 			}
 			// the number arm: a condition on ch being a digit
-			if strings.Contains(w.Src(e), "'0' <= ch") {
+			if isDigitTest(e) {
 				for _, s := range cc.Body {
-					if as, ok := s.(*ast.AssignStmt); ok && w.Src(as.Lhs[0]) == "insertSemi" && w.Src(as.Rhs[0]) == "true" {
+					if as, ok := s.(*ast.AssignStmt); ok && isFlag(as.Lhs[0]) && w.Src(as.Rhs[0]) == "true" {
 						numbers = true
 					}
 				}
@@ -902,7 +968,7 @@ func ruleSEMI1(c *Ctx) {
 	// the flag is stored unless DontInsertSemis
 	stored := containsNode(sc.Body, func(n ast.Node) bool {
 		as, ok := n.(*ast.AssignStmt)
-		return ok && len(as.Lhs) == 1 && strings.HasSuffix(w.Src(as.Lhs[0]), ".insertSemi") && w.Src(as.Rhs[0]) == "insertSemi"
+		return ok && len(as.Lhs) == 1 && strings.HasSuffix(w.Src(as.Lhs[0]), ".insertSemi") && isFlag(as.Rhs[0])
 	})
 	c.check(stored, "semi/stored", sc, "the per-token decision becomes the scanner state", "Scan no longer stores the per-token insertSemi decision")
 }
